@@ -46,8 +46,8 @@ impl Property for C04 {
     }
     fn budget(&self, tier: Tier) -> (u32, u32) {
         match tier {
-            Tier::Quick => (1500, 8),
-            Tier::Thorough => (30000, 16),
+            Tier::Quick => (4000, 8),
+            Tier::Thorough => (200000, 16),
         }
     }
     fn required_counters(&self) -> Vec<&'static str> {
